@@ -191,9 +191,9 @@ Section Ops.
     destruct MEM as (M1 & M2 & M3).
     pose proof (read_segs_spec ps F3 rpos sg2 (rpos + rn) Hs2 st1 cm1 M1 M2) as R.
     replace (rpos + rn - rpos) with rn in R by lia.
-    split; [rewrite Ebs, R, map_length, nseq_length; reflexivity|]. split; [exact Hfit2|].
+    split; [rewrite ?Ebs, R, map_length, nseq_length; reflexivity|]. split; [exact Hfit2|].
     intros k i f o Hk Hloc Hi.
-    rewrite Ebs, R.
+    rewrite ?Ebs, R.
     rewrite (nth_indep _ 0 (cbyte ps st1 cm1 0)) by (rewrite map_length, nseq_length; lia).
     rewrite map_nth. rewrite nth_nseq by lia.
     replace (rpos + N.of_nat (N.to_nat k)) with (rpos + k) by lia.
@@ -221,9 +221,9 @@ Section Ops.
     bs = data.
   Proof.
     intros s off len pos data s' ps bs cmp Hlen H32 Hn32 H.
-    destruct (read_exact _ _ _ _ _ _ _ _ _ _ _ _ _ Hlen H32 Hn32 Hn32 ltac:(discriminate) H)
-      as (R1 & R2 & R3).
-    destruct (chunk_facts (s_store s) off len true) with (st := s_store s) (ps := ps) as [_ _] || idtac.
+    assert (Hne : WOk <> WErr) by discriminate.
+    destruct (read_exact s off len true pos data pos (N.of_nat (length data)) s' ps WOk bs cmp
+                         Hlen H32 Hn32 Hn32 Hne H) as (R1 & R2 & R3).
     apply nth_ext with (d := 0) (d' := 0); [lia|].
     intros j Hj.
     assert (Hk : N.of_nat j < N.of_nat (length data)) by lia.
@@ -301,3 +301,25 @@ Section Ops.
     length (s_store (fst (run c (init_state c) ops))) = length files.
   Proof. intros. apply run_store_length. simpl. rewrite map_length. reflexivity. Qed.
 End Ops.
+
+(* ------------------------------------------------------------------ non-vacuity *)
+
+Definition lay_ex : list (N * bool) := [(2, false); (0, false); (5, false); (1, true); (0, false); (4, false)].
+
+(* a write through piece 2 (spanning a file, a padding entry and another file after an empty one) *)
+Example write_frame_ex : exists s' ps rd cmp,
+  do_chunk (mk_cfg 3 lay_ex) (init_state (mk_cfg 3 lay_ex)) 6 3 true 0 [17; 18; 19] 0 3 =
+  (s', OutChunk ps WOk rd cmp) /\ rd = Some [17; 18; 19] /\
+  s_store s' = [[]; []; [0; 0; 0; 0; 17]; []; []; [19; 0; 0; 0]].
+Proof. do 4 eexists. vm_compute. repeat split; reflexivity. Qed.
+
+(* two non-overlapping writes, both orders, as order_independent requires *)
+Example order_independent_ex :
+  let c := mk_cfg 3 lay_ex in let s := init_state c in
+  exists sA sAB sB sBA psA psB rdA rdB cA cB rdA' rdB' cA' cB',
+    do_chunk c s 0 3 true 1 [7; 8] 0 0 = (sA, OutChunk psA WOk rdA cA) /\
+    do_chunk c sA 3 6 true 0 [9; 10; 11; 12] 0 0 = (sAB, OutChunk psB WOk rdB cB) /\
+    do_chunk c s 3 6 true 0 [9; 10; 11; 12] 0 0 = (sB, OutChunk psB WOk rdB' cB') /\
+    do_chunk c sB 0 3 true 1 [7; 8] 0 0 = (sBA, OutChunk psA WOk rdA' cA') /\
+    s_store sAB = s_store sBA.
+Proof. do 14 eexists. vm_compute. repeat split; reflexivity. Qed.
